@@ -92,6 +92,15 @@ def tucker_als(  # noqa: PLR0912, PLR0913, PLR0915
     rank = parse_one_d(rank)
     if len(rank) == 1:
         rank = rank.repeat(N)
+    if len(rank) != N:
+        raise ValueError(
+            f"Rank must be a scalar or of length tensor.ndims (which was {N}) but got "
+            f"{rank}."
+        )
+    if np.any(rank > np.array(input_tensor.shape)):
+        raise ValueError(
+            f"Rank {rank} exceeds the tensor shape {input_tensor.shape} in some mode."
+        )
 
     # Set up dimorder if not specified
     if dimorder is None:
